@@ -212,6 +212,63 @@ def make_struct_vcase(rng, name, fmt):
     return v
 
 
+OFFDIAG_SIGNS = ["neg", "imag", "mixed", "pos"]
+
+
+def make_offdiag_vcase(rng, fmt, nb_want, herm, container, sign):
+    """"H_0 not block diagonal" with a prescribed sign structure of the offending block: only negative
+    real entries (a -t hopping), only purely imaginary entries of both signs, mixed signs, positive."""
+    c = None
+    for _ in range(400):
+        c = copy.deepcopy(gen.random_case(rng, hermitian=herm, fmt=fmt, max_blocks=3, max_size=3, max_params=2, N=2))
+        if max(c["sub"]) + 1 == nb_want:
+            break
+    else:
+        return None
+    if container == "list":
+        c["H"] = {k: M for k, M in c["H"].items() if sum(gen.unkey(k)) <= 1}
+    bl = blocks_of(c)
+    p, q = sorted(rng.sample(range(nb_want), 2))
+    cells = [(a, b) for a in bl[p] for b in bl[q]]
+    rng.shuffle(cells)
+    cells = cells[:rng.randint(1, min(3, len(cells)))]
+    mag = lambda: Fr(rng.choice([1, 2, 3]), rng.choice([1, 2, 4]))  # noqa: E731
+    for k, (a, b) in enumerate(cells):
+        if sign == "neg":
+            x = G(-mag())
+        elif sign == "pos":
+            x = G(mag())
+        elif sign == "imag":
+            x = G(0, mag() * (1 if k % 2 == 0 else -1))
+        else:
+            x = G(mag() * (1 if k % 2 == 0 else -1), mag() * rng.choice([-1, 0, 1])) if len(cells) > 1 else G(-mag(), mag())
+        # the partner (b, a) is the conjugate: for hermitian=False both blocks (p,q) and (q,p) are scanned
+        set_entry(c, zkey(c), a, b, x, herm=True)
+    v = dict(case=c, designation="indices", container=container, solver=None, damages=[dict(kind="h0_offdiag", p=p, q=q, sign=sign)],
+             fd_override=None, extra_indices=False, pairs=False, implicit=False, vec=None, kw={}, note=None)
+    return v
+
+
+def offdiag_grid(rng):
+    """in EVERY run: sparse values with all sign structures x 2 / 3 blocks x Hermitian or not x list / dict
+    input (32 cases); dense and sympy values with all sign structures, the other factors cycled (16 each)."""
+    out = []
+    combos = [(nb, herm, cont) for nb in (2, 3) for herm in (True, False) for cont in ("list", "dict")]
+    for sign in OFFDIAG_SIGNS:
+        for nb, herm, cont in combos:
+            out.append(("sparse", nb, herm, cont, sign))
+    for fmt in ("dense", "sympy"):
+        for k, sign in enumerate(OFFDIAG_SIGNS * 4):
+            nb, herm, cont = combos[(k + k // 4) % len(combos)]
+            out.append((fmt, nb, herm, cont, sign))
+    vs = []
+    for fmt, nb, herm, cont, sign in out:
+        v = make_offdiag_vcase(rng, fmt, nb, herm, cont, sign)
+        if v is not None:
+            vs.append(v)
+    return vs
+
+
 def make_vcase(rng, damages, fmt=None):
     """build a vcase carrying the given damages (list of names)."""
     if len(damages) == 1 and (damages[0] in STRUCT or damages[0] in NOTES):
@@ -858,7 +915,7 @@ def stream(rng, n):
             v = None
         if v is not None:
             out.append(v)
-    return out
+    return out + offdiag_grid(rng)
 
 
 def summary(v):
